@@ -69,7 +69,7 @@ class C15(Check):
                       "raw file I/O of the output (SimFS)", "process "
                       "lifecycle (SimProc)"],
     }
-    tiers = {"quick": dict(runs=480, budget=70, batch=6),
+    tiers = {"quick": dict(runs=2400, budget=70, batch=6),
              "thorough": dict(runs=24000, budget=800, batch=6)}
     expected_probes = ["slice_axis_reversed", "partial_last_group",
                       "single_group", "rgb", "multi_dir", "uint16",
